@@ -89,7 +89,7 @@ def coarse(repo, res, rule="COARSE"):
                 res.bad(rule, key, f"transitions of state s on Inp::{variant} symbols that differ only in `{f}` collapse to one map entry: one target is silently lost", fn.loc())
 
 
-def intern_eq(repo, res, rule="INTERN-EQ"):
+def intern_eq(repo, res, rule="INTERN-EQ", identity=True):
     """within-word automata are identified by DFA: PartialEq (transitions, accepting states, ordered symbol pool)"""
     imp = [i for i in repo.impls if i[1] == "DFA" and i[2] and i[2].split("::")[-1] == "PartialEq"]
     if len(imp) != 1:
@@ -105,7 +105,7 @@ def intern_eq(repo, res, rule="INTERN-EQ"):
     # is there a canonicalisation of symbol order / state numbering between minimize() and intern()? (there is none: finding)
     f2 = repo.fn("dfa::Inp::from_input")
     ok = False
-    if f2 is not None:
+    if f2 is not None and identity:
         envs = A.collect_envs(f2)
         for c in P.find_calls(f2.body, methods={"intern"}):
             a = A.resolve(c["args"][0], envs.get(id(c)))
@@ -160,7 +160,8 @@ def run(repo, res, tier):
     from . import common
     # `||` behaves like `|` when matching: every pass over the expression treats a Fallback node exactly as it treats an
     # Alternative (both children lists traversed); the one tabled difference is the level assignment
-    common.run_traversals(repo, res, enum="Expr", rp=False)
+    from . import c02 as _c02b
+    common.run_traversals(repo, res, enum="Expr", rp=True, flows=_c02b.flows_table())  # every pass descends into both operators alike AND keeps what it computed below them (RP, shared with C02)
     eqfields(repo, res)
     coarse(repo, res)
     intern_eq(repo, res)
